@@ -40,6 +40,88 @@ var (
 )
 
 // guard runs f on a private copy of in and reports panic / slow call / modified input.
+// scaling: "time linear in the input" for the command-stream decoders, measured as bytes allocated (a
+// deterministic proxy for work): a well-formed stream of 4n payload-carrying commands may allocate about
+// 4 times what n commands allocate, not 16 times. Streams are far longer than a radio frame on purpose.
+func scaling(s *cases.Set, thorough bool) {
+	type dec struct {
+		name string
+		f    func(up bool, b []byte) (int, error)
+	}
+	decs := []dec{
+		{"clocksync.Commands", func(up bool, b []byte) (int, error) {
+			var c clocksync.Commands
+			err := c.UnmarshalBinary(up, b)
+			return len(c), err
+		}},
+		{"multicastsetup.Commands", func(up bool, b []byte) (int, error) {
+			var c multicastsetup.Commands
+			err := c.UnmarshalBinary(up, b)
+			return len(c), err
+		}},
+		{"fragmentation.Commands", func(up bool, b []byte) (int, error) {
+			var c fragmentation.Commands
+			err := c.UnmarshalBinary(up, b)
+			return len(c), err
+		}},
+		{"firmwaremanagement.Commands", func(up bool, b []byte) (int, error) {
+			var c firmwaremanagement.Commands
+			err := c.UnmarshalBinary(up, b)
+			return len(c), err
+		}},
+		{"DecodeFRMPayloadToMACCommands", func(up bool, b []byte) (int, error) {
+			port := uint8(0)
+			phy := lorawan.PHYPayload{MHDR: lorawan.MHDR{MType: mtype(up)}, MACPayload: &lorawan.MACPayload{FPort: &port, FRMPayload: []lorawan.Payload{&lorawan.DataPayload{Bytes: b}}}}
+			err := phy.DecodeFRMPayloadToMACCommands()
+			return len(phy.MACPayload.(*lorawan.MACPayload).FRMPayload), err
+		}},
+	}
+	n := 1500
+	if thorough {
+		n = 6000
+	}
+	measured := 0
+	for _, d := range decs {
+		for _, up := range []bool{true, false} {
+			for cid := 0; cid < 16; cid++ {
+				for k := 1; k <= 10; k++ { // a command with k payload bytes
+					unit := append([]byte{byte(cid)}, make([]byte, k)...)
+					ok := func() (ok bool) {
+						defer func() { _ = recover() }()
+						c, err := d.f(up, bytes.Repeat(unit, 3))
+						return err == nil && c == 3
+					}()
+					if !ok {
+						continue
+					}
+					alloc := func(m int) (a uint64, good bool) {
+						defer func() { _ = recover() }()
+						in := bytes.Repeat(unit, m)
+						what := fmt.Sprintf("%s: %d commands of %d bytes", d.name, m, k+1)
+						cases.Begin(what, map[string]interface{}{"decoder": d.name, "uplink": up, "command": fmt.Sprintf("%x", unit), "count": m})
+						defer cases.End()
+						var m0, m1 runtime.MemStats
+						runtime.ReadMemStats(&m0)
+						c, err := d.f(up, in)
+						runtime.ReadMemStats(&m1)
+						return m1.TotalAlloc - m0.TotalAlloc, err == nil && c == m
+					}
+					a1, g1 := alloc(n)
+					a4, g4 := alloc(4 * n)
+					measured++
+					if g1 && g4 && a1 > 0 && float64(a4) > 8*float64(a1) {
+						s.Fail(cases.GoFail{Key: fmt.Sprintf("superlinear:%s:up=%v:%x", d.name, up, unit),
+							What:   fmt.Sprintf("%s allocates %d bytes for %d commands and %d bytes for %d commands (ratio %.1f, linear would be 4)", d.name, a1, n, a4, 4*n, float64(a4)/float64(a1)),
+							Replay: map[string]interface{}{"decoder": d.name, "uplink": up, "command": fmt.Sprintf("%x", unit), "counts": []int{n, 4 * n}}})
+					}
+					break // one payload size per CID is enough
+				}
+			}
+		}
+	}
+	s.Extra["scaling_measurements"] = measured
+}
+
 // roCopy returns a copy of in that lives in a page the process may only read (nil when that is not
 // possible): a decoder that writes to its input, even if it restores the bytes before returning, faults.
 func roCopy(in []byte) (buf []byte, release func()) {
@@ -599,6 +681,7 @@ func main() {
 		}
 	}
 	s.Extra["non_ascii_text_probes"] = nText
+	scaling(s, thorough)
 	if err := s.Finish(); err != nil {
 		fmt.Fprintln(os.Stderr, err)
 		os.Exit(2)
